@@ -9,6 +9,7 @@ import M3d.Lemmas.MeshDiagHist
 import M3d.Lemmas.MeshDiagCycle
 import M3d.Lemmas.MeshDiagHier2
 import M3d.Lemmas.MeshDiagProbe
+import M3d.Lemmas.MeshDiagSelf
 /-!
 # C11 — mesh diagnostics, repair and nesting agree with their definitions
 
@@ -1367,5 +1368,74 @@ theorem repair_normals2_unnormalised_probe_unsound :
   decide +kernel
 
 end probe
+
+/-! ## `Mesh.SelfIntersections` agrees with its exhaustive definition (round 7, seeded change C11-13)
+
+`SelfIntersections` asks the hierarchy of `MeshToCollider(m)` for every face.  Models: `Model/MeshDiagSelf.lean` on top of
+C07's `triTri` (`Triangle.TriangleCollisions`), `bvhTriTri` (`joinedMultiCollider.TriangleCollisions` over an n-ary
+hierarchy) and `boxOverlap3` (its bounds test `min > max`), reused read-only. -/
+section selfint
+open M3d.Col M3d.MeshDiagSelf
+variable {K : Type} [Field K] [LinearOrder K] [IsStrictOrderedRing K]
+
+/-- **`Mesh.SelfIntersections()` = the exhaustive count.**  For every hierarchy `tree` over the faces (any shape, any
+width, any grouping — what `MeshToCollider` builds is one of them), every order in which `m.Iterate` visits the faces,
+over every ordered field with an exact square root: the sum over the faces `q` of
+`len(collider.TriangleCollisions(q))` is the number of ordered pairs `(T, q)` of faces for which
+`T.TriangleCollisions(q)` reports a segment.  The bounds test of the hierarchy (`min > max` on some axis) never hides
+a pair: a reported pair has a common point, which lies in the bounding box of the query triangle and in the bounds of
+every node that holds the other triangle — also when one of the boxes has NO thickness (faces in an axis-aligned
+plane), where `min = max` on that axis. -/
+theorem self_intersections_eq_exhaustive {sqrtF : K → K} (hs : SqrtOK sqrtF) (eps : K) (heps : 0 < eps)
+    (tree : WTree (Tri3 K)) (order faces : List (Tri3 K)) (ht : tree.leaves.Perm faces) (ho : order.Perm faces) :
+    selfIntersections sqrtF eps tree order = selfIntersectionsDef sqrtF eps faces :=
+  selfIntersections_eq hs eps heps tree order faces ht ho
+
+/-- **What is counted.**  A pair `(T, q)` counts only if the two faces share at most one vertex and cut through each
+other: they have two DIFFERENT common points `p1 ≠ p2`, the ends of the reported segment (all points between them are
+common too, `M3d.Col.triTriCore_some`). -/
+theorem self_intersections_counts_crossing_pairs {sqrtF : K → K} (hs : SqrtOK sqrtF) (eps : K) (heps : 0 < eps)
+    (T q : Tri3 K) (s : V3 K × V3 K) (h : triTri sqrtF eps T q = some s) :
+    triInCommon T q ≤ 1 ∧ ∃ p1 p2, p1 ≠ p2 ∧ (InTri T p1 ∧ InTri q p1) ∧ (InTri T p2 ∧ InTri q p2) ∧
+      (s = (p1, p2) ∨ s = (p2, p1)) :=
+  triTri_some_crossing hs eps heps T q s h
+
+/-- **A mesh whose faces meet only in single points reports 0** — whatever the hierarchy: if no two faces have two
+different points in common (faces of an embedded surface sharing an edge are excluded by `inCommon > 1`: hypothesis
+only for pairs with at most one common vertex), `SelfIntersections()` is 0; and `SelfIntersections() = 0` iff
+`Triangle.TriangleCollisions` reports nothing for every ordered pair of faces. -/
+theorem self_intersections_zero_iff {sqrtF : K → K} (hs : SqrtOK sqrtF) (eps : K) (heps : 0 < eps)
+    (tree : WTree (Tri3 K)) (order faces : List (Tri3 K)) (ht : tree.leaves.Perm faces) (ho : order.Perm faces) :
+    (selfIntersections sqrtF eps tree order = 0 ↔ ∀ T ∈ faces, ∀ q ∈ faces, triTri sqrtF eps T q = none) ∧
+    ((∀ T ∈ faces, ∀ q ∈ faces, triInCommon T q ≤ 1 →
+        ∀ p1 p2, InTri T p1 ∧ InTri q p1 → InTri T p2 ∧ InTri q p2 → p1 = p2) →
+      selfIntersections sqrtF eps tree order = 0) := by
+  rw [self_intersections_eq_exhaustive hs eps heps tree order faces ht ho, selfIntersectionsDef_eq_zero_iff]
+  refine ⟨Iff.rfl, fun h T hT q hq => ?_⟩
+  cases hq' : triTri sqrtF eps T q with
+  | none => rfl
+  | some s =>
+    obtain ⟨g0, p1, p2, hne, h1, h2, _⟩ := triTri_some_crossing hs eps heps T q s hq'
+    exact absurd (h T hT q hq g0 p1 p2 h1 h2) hne
+
+/-- **C11-13 at model level, and non-vacuity** (`decide +kernel` over `Rat`): the face `T` of the plane `z = 0` and the
+face `q` of the plane `x = 1/2` cut through each other along the segment `(1/2, 1/4, 0) – (1/2, 1, 0)`.  The definition
+counts 2 (both ordered pairs), the hierarchy of the source — flat or split — counts 2; a bounds test that asks for a
+common VOLUME of the boxes (`min >= max` rejects) drops both queries at the root, because the bounding box of each
+face has no thickness along one axis: 0 self-intersections on a mesh that does intersect itself.  (`sqrtF` only
+scales the normals here: the two planes are perpendicular.) -/
+theorem self_intersections_volume_gate_unsound :
+    let T : Tri3 Rat := (⟨0,0,0⟩, ⟨2,0,0⟩, ⟨0,2,0⟩)
+    let q : Tri3 Rat := (⟨1/2,1/4,-1⟩, ⟨1/2,1/4,1⟩, ⟨1/2,1,0⟩)
+    let sq : Rat → Rat := fun x => x
+    (triTri sq (1/100000000) T q).map (fun s => (s.1.x, s.1.y, s.1.z, s.2.x, s.2.y, s.2.z)) =
+      some (1/2, 1/4, 0, 1/2, 1, 0) ∧
+    selfIntersectionsDef sq (1/100000000) [T, q] = 2 ∧
+    selfIntersections sq (1/100000000) (flatTree [T, q]) [T, q] = 2 ∧
+    selfIntersections sq (1/100000000) (.nodeCons (flatTree [q]) (.nodeCons (flatTree [T]) .nil)) [q, T] = 2 ∧
+    selfIntersectionsVol sq (1/100000000) (flatTree [T, q]) [T, q] = 0 := by
+  decide +kernel
+
+end selfint
 
 end M3d.C11
